@@ -131,6 +131,8 @@ type stepRig struct {
 	memKind int            // 0: recording bus, 1: the bundled DumbMemory (64 KiB), 2: the bundled MapMemory
 	dumb    z80.DumbMemory // reused between cases; only the cells a case needs are initialised
 	prev    z80.CPU        // the CPU value of the previous case (see run)
+	alt     z80.CPU        // every other case executes on this copy (another address than r.cpu)
+	flip    bool
 }
 
 const (
@@ -241,16 +243,32 @@ func (r *stepRig) run(c *stepCase, code []uint8) stepOutcome {
 		} else {
 			newReq = z80.IM2Interrupt(0x10)
 		}
-		cpu, at := &r.cpu, c.RaiseAt
+	}
+	// every other case runs on a struct copy that lives at another address than the value it was copied from
+	// (and the original is scribbled over): whatever a CPU value caches must not point back into another value
+	target := &r.cpu
+	r.flip = !r.flip
+	if r.flip {
+		r.alt = r.cpu
+		target = &r.alt
+		r.cpu.States = z80.States{}
+	}
+	if c.RaiseAt > 0 {
+		at := c.RaiseAt
 		r.ib.Hook = func(n int, _ bus.Access) {
 			if n == at {
-				cpu.Interrupt = newReq
+				target.Interrupt = newReq
 			}
 		}
 	}
 	l0 := atomic.LoadInt64(&logLines)
-	if p := eng.SafeStep(&r.cpu); p != nil {
-		o.discs = append(o.discs, eng.Disc{Kind: eng.KPanic, Msg: fmt.Sprint("Step panicked: ", p)})
+	pan := eng.SafeStep(target)
+	if r.flip {
+		r.cpu = r.alt
+		r.alt.States = z80.States{}
+	}
+	if pan != nil {
+		o.discs = append(o.discs, eng.Disc{Kind: eng.KPanic, Msg: fmt.Sprint("Step panicked: ", pan)})
 		return o
 	}
 	r.ib.Hook = nil
